@@ -37,7 +37,7 @@ MUT = {
          "        except __import__('pybufrkit.errors').errors.BitReadError as e:\n"),
         ('skip-branch-one-byte-only', D,
          "                    idx_start += bufr_message.length.value\n", "                    idx_start += 1\n"),
-        ('bit-read-error-not-wrapped', 'pybufrkit/bitops.py', "        except bitstring.ReadError as e:\n            raise BitReadError(e.msg)\n",
+        ('bit-read-error-not-wrapped', 'pybufrkit/bitops.py', "        except self.bitstring_Error as e:\n            raise BitReadError(e.msg)\n",
          "        except ZeroDivisionError as e:\n            raise BitReadError(e.msg)\n"),
         ('F9-reverted-assert', D,
          "            if parameter.expected is not None and parameter.value != parameter.expected:\n                raise PyBufrKitError(",
